@@ -83,6 +83,17 @@ Roundtrip ==
     /\ UNCHANGED <<typ, msg, rmsg>>
     /\ l' = l + 1
 
+\* C05: every deterministic marshal of every history of the same value gives the same bytes
+DetN ==
+    /\ IsEvent("detn")
+    /\ LET e == Trace[l]
+           want == EncMsg(S, typ, msg)
+       IN Verdict(e, e.ok /\ Len(e.outs) = 1 /\ \A i \in 1..Len(e.outs) : e.outs[i] = want,
+                  e.ref_out = EncMsg(S, typ, rmsg),
+                  IF ~e.ok THEN "detn:error" ELSE IF Len(e.outs) # 1 THEN "detn:unstable" ELSE "detn:bytes")
+    /\ UNCHANGED <<typ, msg, rmsg>>
+    /\ l' = l + 1
+
 Size ==
     /\ IsEvent("size")
     /\ LET e == Trace[l]
@@ -135,7 +146,7 @@ Unmarshal ==
     /\ l' = l + 1
 
 Init == l = 1 /\ typ = "" /\ msg = EmptyMsg /\ rmsg = EmptyMsg /\ TLCSet(1, 0)
-Next == Load \/ Reset \/ Marshal \/ Roundtrip \/ Size \/ AppendEv \/ Unmarshal
+Next == Load \/ Reset \/ Marshal \/ Roundtrip \/ DetN \/ Size \/ AppendEv \/ Unmarshal
 Spec == Init /\ [][Next]_vars
 
 AllConsumed ==
